@@ -13,7 +13,8 @@ THEOREMS = ["remembered_only_if", "supported_implies_parse", "store_bounded", "e
             "dial_result_rescores_used_address", "rediscovery_keeps_score", "dial_order",
             "listen_address_roundtrip", "listener_binds_only_sockets", "reported_dialable_and_local", "local_dial_sound",
             "lookup_respects_dns_type", "public_addresses_name_local", "handle_dial_guarded",
-            "dial_failure_rescored_in_every_state"]
+            "dial_failure_rescored_in_every_state", "endpoint_address_is_dialed_address",
+            "established_dial_scores_dialed_address"]
 CONSTS = ["ADDR_MAX_ADDRESSES", "ADDR_CONNECTION_ESTABLISHED", "ADDR_CONNECTION_FAILURE_NEG",
           "ADDR_PUBLIC_ADDRESS_BONUS", "ADDR_FAILURE_IS_I32_MIN"]
 _A = "src/transport/manager/address.rs"
@@ -1007,17 +1008,32 @@ def nontrivial(case, out):
 # connection, ...): those histories run in the c05 area (the real TransportManager behind a scripted transport, model
 # Model/Manager/Dial.lean) with `scores <p>` around every outcome, judged by `mgr_common.oracle_scores`.
 def extra_cases(rng, tier):
-    from . import mgr_common
+    from . import mgr_common, c01
     yield "C05", list(mgr_common.gen_score_cases(rng, tier))
+    # The address the manager scores on ConnectionEstablished is the one the TRANSPORT reports: the c01 area's `tp` op dials
+    # through two real TcpTransports (open / dial x every host kind) and prints the endpoint address next to the dialed one.
+    ops = [f"tp via={via} host={host} d={d} l={l} exp={e}"
+           for via in ("open", "dial") for host in c01.HOSTS
+           for (d, l) in [tuple(rng.sample(range(8), 2))] for e in [rng.choice([l, "none"])]]
+    if tier == "thorough":
+        ops = ops * 3
+    yield "C01", c01.chunks(ops, 5)
 
 
 def oracle_extra(xpid, case, out):
-    from . import mgr_common
+    from . import mgr_common, c01
+    if xpid == "C01":
+        res = []
+        for i in range(min(len(case), len(out))):
+            res += c01.tp_endpoint_oracle(case, out, i)
+        return [dict(v, msg="(real TcpTransports, c01 area) " + v["msg"]) for v in res]
     return [dict(v, msg="(real TransportManager, c05 area) " + v["msg"]) for v in mgr_common.oracle_scores(case, out)]
 
 
 def stats_extra(xpid, case, out, acc):
-    from . import mgr_common
+    from . import mgr_common, c01
+    if xpid == "C01":
+        return c01.stats(case, out, acc)
     mgr_common.stats_scores(case, out, acc)
 
 
